@@ -9,6 +9,9 @@
 
 #include "clipper2/clipper.engine.h"
 #include "clipper2/clipper.h"
+#ifdef CLIPPER2_VERIF
+#include "clipper2/clipper.verif.h"
+#endif
 #include <stdexcept>
 
 // https://github.com/AngusJohnson/Clipper2/discussions/334
@@ -2149,6 +2152,9 @@ namespace Clipper2Lib {
         horz_seg_list_.clear();
       }
       bot_y_ = y;  // bot_y_ == bottom of scanbeam
+#ifdef CLIPPER2_VERIF
+      CLIPPER2_VERIF_YIELD(1);
+#endif
       if (!PopScanline(y)) break;  // y new top of scanbeam
       DoIntersections(y);
       DoTopOfScanbeam(y);
